@@ -1294,6 +1294,11 @@ impl<'r> G<'r> {
         }
     }
     fn str_lit(&mut self) -> String {
+        // one in four string literals is multi-byte text: positions, lengths and pads computed in bytes
+        // instead of characters only show on such input
+        if self.r.below(4) == 0 {
+            return pick!(self, "'héllo wörld ✓'", "'日本語テキスト'", "'äbc'", "'😀é😀'", "'ñ'", "'aé'", "'ßß'").to_string();
+        }
         self.p(STR_LITS).to_string()
     }
     fn literal(&mut self) -> String {
